@@ -264,7 +264,7 @@ theorem number_int (d : Char) (rest : List Char) (hd : isDigit d = true) (hr : r
   have hall : ((d :: rest).filter (· ≠ '_')).all isDigit = true := by
     simp only [List.filter, ne_eq, hne, not_false_eq_true, decide_true, List.all_cons, hd, Bool.true_and]
     exact filter_all rest (by simpa [isNumDigit] using hr)
-  unfold numberLiteral
+  unfold numberLiteral stripUs
   have hp : parseRadix 10 ((d :: rest).filter (· ≠ '_')) = some (radixVal 10 ((d :: rest).filter (· ≠ '_'))) := by
     unfold parseRadix
     rw [if_pos]
@@ -280,6 +280,323 @@ theorem number_int (d : Char) (rest : List Char) (hd : isDigit d = true) (hr : r
 theorem radixVal_snoc (radix : Nat) (ds : List Char) (c : Char) :
     radixVal radix (ds ++ [c]) = radixVal radix ds * radix + hexVal c := by
   simp [radixVal, List.foldl_append]
+
+
+abbrev strip (l : List Char) : List Char := l.filter (· ≠ '_')
+
+theorem strip_append (a b : List Char) : strip (a ++ b) = strip a ++ strip b := by simp [strip]
+
+theorem isDigit_ne_us {c : Char} (h : isDigit c = true) : c ≠ '_' := by
+  intro e; subst e; revert h; decide
+
+theorem isHex_ne_us {c : Char} (h : isHex c = true) : c ≠ '_' := by
+  intro e; subst e; revert h; decide
+
+theorem strip_cons_keep {c : Char} (h : c ≠ '_') (l : List Char) : strip (c :: l) = c :: strip l := by
+  simp [strip, List.filter, h]
+
+theorem strip_dropWhile_us (l : List Char) : strip (l.dropWhile (· = '_')) = strip l := by
+  induction l with
+  | nil => rfl
+  | cons c cs ih =>
+    by_cases hc : c = '_'
+    · subst hc; simp [List.dropWhile, strip, List.filter] at ih ⊢; exact ih
+    · simp [List.dropWhile, hc]
+
+theorem char_le_iff (a c : Char) : a ≤ c ↔ a.toNat ≤ c.toNat := by
+  rw [Char.le_def]; simp only [Char.toNat]; exact UInt32.le_iff_toNat_le
+theorem isHex_iff (c : Char) : isHex c = true ↔
+    (48 ≤ c.toNat ∧ c.toNat ≤ 57) ∨ (97 ≤ c.toNat ∧ c.toNat ≤ 102) ∨ (65 ≤ c.toNat ∧ c.toNat ≤ 70) := by
+  unfold isHex
+  simp only [Bool.or_eq_true, Bool.and_eq_true, decide_eq_true_eq, char_le_iff]
+  have e0 : '0'.toNat = 48 := by decide
+  have e9 : '9'.toNat = 57 := by decide
+  have ea : 'a'.toNat = 97 := by decide
+  have ef : 'f'.toNat = 102 := by decide
+  have eA : 'A'.toNat = 65 := by decide
+  have eF : 'F'.toNat = 70 := by decide
+  rw [e0, e9, ea, ef, eA, eF]
+  constructor <;> intro h <;> omega
+
+theorem hexVal_lt16 {c : Char} (h : isHex c = true) : hexVal c < 16 := by
+  have hh := (isHex_iff c).mp h
+  have e0 : '0'.toNat = 48 := by decide
+  have e9 : '9'.toNat = 57 := by decide
+  have ea : 'a'.toNat = 97 := by decide
+  have ef : 'f'.toNat = 102 := by decide
+  have eA : 'A'.toNat = 65 := by decide
+  unfold hexVal
+  split
+  · rename_i hd
+    simp only [Bool.and_eq_true, decide_eq_true_eq, char_le_iff, e0, e9] at hd
+    omega
+  · rename_i hnd
+    simp only [Bool.and_eq_true, decide_eq_true_eq, char_le_iff, e0, e9] at hnd
+    split
+    · rename_i hl
+      simp only [Bool.and_eq_true, decide_eq_true_eq, char_le_iff, ea, ef] at hl
+      omega
+    · rename_i hnl
+      simp only [Bool.and_eq_true, decide_eq_true_eq, char_le_iff, ea, ef] at hnl
+      omega
+
+theorem parseRadix_some (radix : Nat) (cs : List Char) (hne : cs ≠ [])
+    (h : ∀ c ∈ cs, isHex c = true ∧ hexVal c < radix) : parseRadix radix cs = some (radixVal radix cs) := by
+  unfold parseRadix
+  rw [if_pos]
+  simp only [Bool.and_eq_true, Bool.not_eq_true', List.all_eq_true, decide_eq_true_eq]
+  exact ⟨by cases cs <;> simp_all, h⟩
+
+
+theorem strip_all_of {p : Char → Bool} (l : List Char) (h : l.all (fun c => p c || c = '_') = true) :
+    (strip l).all p = true := filter_all l h
+
+theorem hex_token_ok (rest : List Char) (h : isHexTok ('0' :: 'x' :: rest) = true) :
+    ∃ v, parseRadix 16 (strip rest) = some v := by
+  simp only [isHexTok] at h
+  split at h
+  · rename_i hd more hdw
+    simp only [Bool.and_eq_true] at h
+    have e : strip rest = hd :: strip more := by
+      rw [← strip_dropWhile_us rest, hdw, strip_cons_keep (isHex_ne_us h.1)]
+    have hm : (strip more).all isHex = true := strip_all_of more (by simpa [isHexDigitU] using h.2)
+    refine ⟨_, parseRadix_some 16 _ (by rw [e]; simp) ?_⟩
+    intro c hc
+    rw [e] at hc
+    rcases List.mem_cons.mp hc with rfl | hc
+    · exact ⟨h.1, hexVal_lt16 h.1⟩
+    · have := List.all_eq_true.mp hm c hc
+      exact ⟨this, hexVal_lt16 this⟩
+  · cases h
+
+theorem isBin_props {c : Char} (h : isBin c = true) : isHex c = true ∧ hexVal c < 2 := by
+  simp only [isBin, Bool.or_eq_true, decide_eq_true_eq] at h
+  rcases h with rfl | rfl <;> decide
+
+theorem bin_token_ok (rest : List Char) (h : isBinTok ('0' :: 'b' :: rest) = true) :
+    ∃ v, parseRadix 2 (strip rest) = some v := by
+  simp only [isBinTok] at h
+  split at h
+  · rename_i hd more hdw
+    simp only [Bool.and_eq_true] at h
+    have e : strip rest = hd :: strip more := by
+      rw [← strip_dropWhile_us rest, hdw, strip_cons_keep (isHex_ne_us (isBin_props h.1).1)]
+    have hm : (strip more).all isBin = true := strip_all_of more (by simpa [isBinDigitU] using h.2)
+    refine ⟨_, parseRadix_some 2 _ (by rw [e]; simp) ?_⟩
+    intro c hc
+    rw [e] at hc
+    rcases List.mem_cons.mp hc with rfl | hc
+    · exact isBin_props h.1
+    · exact isBin_props (List.all_eq_true.mp hm c hc)
+  · cases h
+
+
+theorem isNumDigit_iff (c : Char) : isNumDigit c = true ↔ isDigit c = true ∨ c = '_' := by
+  simp [isNumDigit]
+
+theorem strip_numDigits (l : List Char) (h : l.all isNumDigit = true) : (strip l).all isDigit = true :=
+  filter_all l (by simpa [isNumDigit] using h)
+
+theorem dropWhile_digits_append (a b : List Char) (ha : a.all isDigit = true)
+    (hb : b = [] ∨ ∃ h tl, b = h :: tl ∧ isDigit h = false) : (a ++ b).dropWhile isDigit = b := by
+  induction a with
+  | nil =>
+    rcases hb with rfl | ⟨h, tl, rfl, hh⟩
+    · rfl
+    · simp [List.dropWhile, hh]
+  | cons c cs ih =>
+    simp only [List.all_cons, Bool.and_eq_true] at ha
+    simp [List.dropWhile, ha.1, ih ha.2]
+
+theorem takeWhile_all (p : Char → Bool) (l : List Char) : (l.takeWhile p).all p = true := by
+  induction l with
+  | nil => rfl
+  | cons c cs ih =>
+    by_cases h : p c = true
+    · simp [List.takeWhile, h, ih]
+    · simp [List.takeWhile, h]
+
+theorem dropWhile_head (p : Char → Bool) (l : List Char) :
+    l.dropWhile p = [] ∨ ∃ h tl, l.dropWhile p = h :: tl ∧ p h = false := by
+  induction l with
+  | nil => left; rfl
+  | cons c cs ih =>
+    by_cases h : p c = true
+    · simpa [List.dropWhile, h] using ih
+    · right; exact ⟨c, cs, by simp [List.dropWhile, h], by simpa using h⟩
+
+theorem isFloatExp_digit (d : Char) (m : List Char) (hd : isDigit d = true) :
+    isFloatExp (d :: m) = m.all isDigit := by
+  have hne : d ≠ '-' := by intro e; subst e; revert hd; decide
+  unfold isFloatExp
+  split
+  · rename_i heq; cases heq; exact absurd rfl hne
+  · rename_i heq; cases heq; simp [hd]
+  · rename_i heq; cases heq
+
+/-- exponent: the float exponent check holds on the stripped text -/
+theorem floatExp_of_expTail (t : List Char) (h : isExpTail t = true) : isFloatExp (strip t) = true := by
+  unfold isExpTail at h
+  split at h
+  · rename_i d m
+    simp only [Bool.and_eq_true] at h
+    rw [strip_cons_keep (by decide), strip_cons_keep (isDigit_ne_us h.1)]
+    simp only [isFloatExp, h.1, strip_numDigits m h.2, Bool.and_self]
+  · rename_i d m hnot
+    simp only [Bool.and_eq_true] at h
+    rw [strip_cons_keep (isDigit_ne_us h.1), isFloatExp_digit _ _ h.1]
+    exact strip_numDigits m h.2
+  · cases h
+
+
+theorem floatTail_exp (e : Char) (t : List Char) (hne : e ≠ '.')
+    (h : ((e = 'e' || e = 'E') && isExpTail t) = true) : isFloatTail (e :: strip t) = true := by
+  simp only [Bool.and_eq_true] at h
+  unfold isFloatTail
+  split
+  · rename_i more heq; cases heq; exact absurd rfl hne
+  · simp only [h.1, floatExp_of_expTail t h.2, Bool.and_self]
+
+theorem strip_head_keep (p : Char → Bool) (hp : p '_' = true) (l : List Char) :
+    (l.dropWhile p = [] ∧ strip (l.dropWhile p) = []) ∨
+    ∃ h tl, l.dropWhile p = h :: tl ∧ p h = false ∧ strip (l.dropWhile p) = h :: strip tl := by
+  rcases dropWhile_head p l with h | ⟨h, tl, e, hh⟩
+  · left; exact ⟨h, by rw [h]; rfl⟩
+  · right
+    refine ⟨h, tl, e, hh, ?_⟩
+    rw [e, strip_cons_keep]
+    intro e'; subst e'; rw [hp] at hh; cases hh
+
+theorem floatTail_of_numTail (h : Char) (tl : List Char) (hh : isNumDigit h = false)
+    (hn : isNumTail (h :: tl) = true) : isFloatTail (h :: strip tl) = true := by
+  by_cases hdot : h = '.'
+  · subst hdot
+    cases tl with
+    | nil => revert hn; decide
+    | cons f more =>
+      by_cases hf : isNumDigit f = true
+      · have hn' := hn
+        simp only [isNumTail, hf, if_true] at hn'
+        -- split `more` into its digit run and the rest
+        have hsplit : f :: more = (f :: more.takeWhile isNumDigit) ++ more.dropWhile isNumDigit := by
+          simp [List.takeWhile_append_dropWhile]
+        have hB : (strip (f :: more.takeWhile isNumDigit)).all isDigit = true :=
+          strip_numDigits _ (by simp [hf, takeWhile_all])
+        rw [hsplit, strip_append]
+        unfold isFloatTail
+        simp only
+        rcases strip_head_keep isNumDigit (by decide) more with ⟨h0, hs0⟩ | ⟨e, t, he, hne, hse⟩
+        · have hdw := dropWhile_digits_append _ [] hB (Or.inl rfl)
+          rw [List.append_nil] at hdw
+          rw [hs0, List.append_nil, hdw]
+        · rw [hse, dropWhile_digits_append _ _ hB (Or.inr ⟨e, strip t, rfl, by
+            simp only [isNumDigit, Bool.or_eq_false_iff] at hne; exact hne.1⟩)]
+          rw [he] at hn'
+          simp only [Bool.and_eq_true] at hn'
+          simp only [hn'.1, floatExp_of_expTail t hn'.2, Bool.and_self]
+      · exfalso
+        have : isNumTail ('.' :: f :: more) = false := by
+          simp [isNumTail, hf]
+        rw [this] at hn; cases hn
+  · have hn' : ((h = 'e' || h = 'E') && isExpTail tl) = true := by
+      unfold isNumTail at hn
+      split at hn
+      · rename_i f r2 heq; cases heq; exact absurd rfl hdot
+      · exact hn
+    exact floatTail_exp h tl hdot hn'
+
+theorem num_token_ok (d : Char) (rest : List Char) (h : isNumTok (d :: rest) = true) :
+    (∃ v, parseRadix 10 (strip (d :: rest)) = some v) ∨ isFloatText (strip (d :: rest)) = true := by
+  simp only [isNumTok, Bool.and_eq_true] at h
+  obtain ⟨hd, hn⟩ := h
+  have hsplit : rest = rest.takeWhile isNumDigit ++ rest.dropWhile isNumDigit := by
+    simp [List.takeWhile_append_dropWhile]
+  have hA : (strip (rest.takeWhile isNumDigit)).all isDigit = true := strip_numDigits _ (takeWhile_all _ _)
+  have ht : strip (d :: rest) = (d :: strip (rest.takeWhile isNumDigit)) ++ strip (rest.dropWhile isNumDigit) := by
+    rw [strip_cons_keep (isDigit_ne_us hd)]
+    conv => lhs; rw [hsplit, strip_append]
+    rfl
+  rcases strip_head_keep isNumDigit (by decide) rest with ⟨h0, hs0⟩ | ⟨e, t, he, hne, hse⟩
+  · left
+    rw [ht, hs0, List.append_nil]
+    refine ⟨_, parseRadix_some 10 _ (by simp) ?_⟩
+    intro c hc
+    have : isDigit c = true := by
+      rcases List.mem_cons.mp hc with rfl | hc
+      · exact hd
+      · exact List.all_eq_true.mp hA c hc
+    exact ⟨isHex_of_isDigit this, hexVal_digit this⟩
+  · right
+    rw [ht, hse]
+    have he' : isDigit e = false := by
+      simp only [isNumDigit, Bool.or_eq_false_iff] at hne; exact hne.1
+    unfold isFloatText
+    simp only [List.cons_append, hd, Bool.true_and]
+    have : ((d :: strip (rest.takeWhile isNumDigit)) ++ e :: strip t).dropWhile isDigit = e :: strip t :=
+      dropWhile_digits_append _ _ (by simp [hd, hA]) (Or.inr ⟨e, strip t, rfl, he'⟩)
+    simp only [List.cons_append] at this
+    rw [this]
+    rw [he] at hn
+    exact floatTail_of_numTail e t hne hn
+
+
+theorem stripUs_eq (l : List Char) : stripUs l = strip l := rfl
+
+theorem numberLiteral_ok_of (s : List Char)
+    (h : (∃ v, parseRadix 10 (strip s) = some v) ∨ (∃ v, hexAttempt (strip s) = some v) ∨
+         (∃ v, binAttempt (strip s) = some v) ∨ isFloatText (strip s) = true) :
+    ¬ (numberLiteral s).isPanic := by
+  unfold numberLiteral
+  rw [stripUs_eq]
+  cases h10 : parseRadix 10 (strip s) with
+  | some v => simp [Outcome.isPanic]
+  | none =>
+    cases h16 : hexAttempt (strip s) with
+    | some v => simp [Outcome.isPanic]
+    | none =>
+      cases h2 : binAttempt (strip s) with
+      | some v => simp [Outcome.isPanic]
+      | none =>
+        rcases h with ⟨v, hv⟩ | ⟨v, hv⟩ | ⟨v, hv⟩ | hf
+        · rw [h10] at hv; cases hv
+        · rw [h16] at hv; cases hv
+        · rw [h2] at hv; cases hv
+        · simp only [hf, if_true]; simp [Outcome.isPanic]
+
+/-- every token the grammar rule NUMBER_ANY can produce is handled without reaching the `panic!` -/
+theorem numberLiteral_total (s : List Char) (h : isNumberAny s = true) : ¬ (numberLiteral s).isPanic := by
+  apply numberLiteral_ok_of
+  simp only [isNumberAny, Bool.or_eq_true] at h
+  rcases h with (h | h) | h
+  · -- hexnum
+    have : ∃ rest, s = '0' :: 'x' :: rest := by
+      unfold isHexTok at h
+      split at h
+      · exact ⟨_, rfl⟩
+      · cases h
+    obtain ⟨rest, rfl⟩ := this
+    obtain ⟨v, hv⟩ := hex_token_ok rest h
+    right; left
+    refine ⟨v, ?_⟩
+    rw [strip_cons_keep (by decide), strip_cons_keep (by decide)]
+    simpa [hexAttempt, binAttempt] using hv
+  · have : ∃ rest, s = '0' :: 'b' :: rest := by
+      unfold isBinTok at h
+      split at h
+      · exact ⟨_, rfl⟩
+      · cases h
+    obtain ⟨rest, rfl⟩ := this
+    obtain ⟨v, hv⟩ := bin_token_ok rest h
+    right; right; left
+    refine ⟨v, ?_⟩
+    rw [strip_cons_keep (by decide), strip_cons_keep (by decide)]
+    simpa [hexAttempt, binAttempt] using hv
+  · cases s with
+    | nil => cases h
+    | cons d rest =>
+      rcases num_token_ok d rest h with h' | h'
+      · left; exact h'
+      · right; right; right; exact h'
 
 
 end XrayModel.Lex
